@@ -130,6 +130,21 @@ def all_requests(rng, mt, kt):
         return fr
     reqs.append(Req('set', 'UbxCfgRate(decoded+edited)', rate_edited, mt['UbxCfgRate']['cid']))
     reqs.append(Req('fire', 'UbxCfgRate(decoded+edited)', rate_edited, mt['UbxCfgRate']['cid']))
+    # a poll answer whose reserved bytes are not zero, decoded, one field edited, sent back: the transmission is the canonical
+    # encoding of the FIELD VALUES (reserved bytes zero), not an echo of what was received
+    for nm in ('UbxCfgNav5', 'UbxCfgPrtUart', 'UbxCfgEsfAlg'):
+        if nm in mt and mt[nm]['kind'] == 'fixed' and any(t[0] == 'P' for _, t in mt[nm]['layout']):
+            cls_ = mt[nm]['cls']
+            lay_ = mt[nm]['layout']
+            pay_ = bytes(rng.choice([0xFF, 0xA5, 0x01]) for _ in range(F.size_of(lay_)))
+
+            def edited(cls_=cls_, pay_=pay_, lay_=lay_):
+                fr = cls_.construct(bytearray(pay_))
+                first = next(n for n, t in lay_ if t[0] in 'UX')
+                setattr(fr.f, first, 1)
+                return fr
+            reqs.append(Req('set', nm + '(decoded with reserved bytes set+edited)', edited, mt[nm]['cid']))
+            reqs.append(Req('fire', nm + '(decoded with reserved bytes set+edited)', edited, mt[nm]['cid']))
     UT = mt['UbxMgaIniTimeUtc']['cls']
 
     def utc():
